@@ -80,7 +80,7 @@ func c11Monitor(run *ev.Run, spec world.Spec) hMonitor {
 			viol("multiple-refresh-requests", fmt.Sprintf("%d refresh requests in one check", len(refreshes)), hist, o.Event)
 		}
 		tr := refreshes[0]
-		run.Class(fmt.Sprintf("refresh|answer=%s|result=%s|ok=%v", ans, tr.Result, o.Res.OK))
+		run.Class(fmt.Sprintf("refresh|answer=%s|result=%s|ok=%v|rolled=%v", ans, tr.Result, o.Res.OK, w.Rolled))
 		if got := tr.Form.Get("refresh_token"); strings.HasPrefix(tr.Result, "invalid_grant") {
 			viol("stale-refresh-token", fmt.Sprintf("refresh request carried %q which is not the provider's current refresh token (%s)", got, tr.Result), hist, o.Event)
 			return
@@ -92,12 +92,16 @@ func c11Monitor(run *ev.Run, spec world.Spec) hMonitor {
 		if tr.Form.Get("grant_type") != "refresh_token" {
 			viol("bad-grant-type", "grant_type="+tr.Form.Get("grant_type"), hist, o.Event)
 		}
-		if tr.Answered == 200 && tr.HonestOK {
-			// reference merge
-			ref := oidc.TokenResponse{IDToken: old.IDToken, AccessToken: old.AccessToken, RefreshToken: old.RefreshToken, AccessTokenExpiresAt: old.AccessTokenExpiresAt}
-			if tr.IDToken != "" {
-				ref.IDToken = tr.IDToken
-			}
+		// reference merge and reference validation of its ID token under the keys the provider publishes NOW
+		ref := oidc.TokenResponse{IDToken: old.IDToken, AccessToken: old.AccessToken, RefreshToken: old.RefreshToken, AccessTokenExpiresAt: old.AccessTokenExpiresAt}
+		if tr.IDToken != "" {
+			ref.IDToken = tr.IDToken
+		}
+		mergedValid := false
+		if claims, err := world.VerifyIndependent(ref.IDToken, w.Keys...); err == nil && world.AudContains(claims, w.Cfg.GetClientId()) {
+			mergedValid = true
+		}
+		if tr.Answered == 200 && tr.HonestOK && mergedValid {
 			if tr.Access != "" {
 				ref.AccessToken = tr.Access
 			}
@@ -166,7 +170,7 @@ func c11Monitor(run *ev.Run, spec world.Spec) hMonitor {
 }
 
 func c11Run(run *ev.Run) {
-	run.Rule = "BFS from the logged-in state over {request with the session cookie, advance to/past token expiry, re-login callbacks} x provider refresh behaviours (rotate, keep, omit id/access/expires_in, foreign key, foreign audience, HTTP 400/500, lost answer, non-Bearer); every refresh-grant request is checked against the provider's ledger (current refresh token, credentials) and the stored+forwarded result against a reference merge; class = (answer, ledger result, verdict)"
+	run.Rule = "BFS from the logged-in state over {request with the session cookie, advance to/past token expiry, re-login callbacks} x provider refresh behaviours (rotate, keep, omit id/access/expires_in, foreign key, foreign audience, HTTP 400/500, lost answer, non-Bearer) and a signing-key roll-over at any point; every refresh-grant request is checked against the provider's ledger (current refresh token, credentials) and the stored+forwarded result against a reference merge; class = (answer, ledger result, verdict)"
 	run.Assumptions = []string{
 		"handler-level world, token lifetime 60 s virtual, time-outs 0",
 		"an unparsable id_token in a refresh answer is outside the alphabet (the statement does not say whether it counts as omitted)",
@@ -180,7 +184,7 @@ func c11Run(run *ev.Run) {
 	stores := []string{"memory", "redis"}
 	for _, store := range stores {
 		spec := world.Spec{Store: store, Forward: true}
-		o := hOpts{Spec: spec, Advance: true, GoodIdP: c11Answers(run.Tier), Prefix: loginPrefix, OnlyLive: true, MaxSessions: 3}
+		o := hOpts{Spec: spec, Advance: true, GoodIdP: c11Answers(run.Tier), Prefix: loginPrefix, OnlyLive: true, MaxSessions: 3, Rollover: true}
 		m := o.model(c11Monitor(run, spec))
 		m.MaxDepth = depth
 		st := seqx.Explore(run, m)
@@ -205,7 +209,7 @@ func c11ReplayFn(path string) int {
 		return 2
 	}
 	run := ev.NewRun("C11", "replay", "/nonexistent")
-	o := hOpts{Spec: rp.Spec, Advance: true, GoodIdP: c11Answers("thorough")}
+	o := hOpts{Spec: rp.Spec, Advance: true, GoodIdP: c11Answers("thorough"), Rollover: true}
 	m := o.model(c11Monitor(run, rp.Spec))
 	s := seqx.Replay(m, rp.History)
 	s.Close()
